@@ -246,16 +246,661 @@ def k_streams(ctx):
 
 
 # ------------------------------------------------------------------------------------------------
+# independent symmetry oracle (never consults chython's Morgan code): constitution graph, colour refinement,
+# RDKit symmetry classes, automorphism search, ring systems
+# ------------------------------------------------------------------------------------------------
+
+def const_graph(mol):
+    """constitution only: atom -> (Z, charge, isotope, radical, implicit H); adjacency atom -> {nbr: order}"""
+    atoms = {n: (a.atomic_number, a._charge, a._isotope or 0, int(a._is_radical), a._implicit_hydrogens or 0)
+             for n, a in mol._atoms.items()}
+    adj = {n: {m: b.order for m, b in ms.items()} for n, ms in mol._bonds.items()}
+    return atoms, adj
+
+
+def wl_classes(atoms, adj):
+    """1-dimensional Weisfeiler-Leman colour refinement to the fixed point (own implementation)."""
+    col = {n: atoms[n] + (len(adj[n]),) for n in atoms}
+    ids = {c: i for i, c in enumerate(sorted(set(col.values())))}
+    col = {n: ids[c] for n, c in col.items()}
+    while True:
+        sig = {n: (col[n], tuple(sorted((col[m], o) for m, o in adj[n].items()))) for n in atoms}
+        ids = {c: i for i, c in enumerate(sorted(set(sig.values())))}
+        new = {n: ids[c] for n, c in sig.items()}
+        if len(set(new.values())) == len(set(col.values())):
+            return new
+        col = new
+
+
+def rdkit_classes(atoms, adj):
+    """RDKit CanonicalRankAtoms(breakTies=False) on an RDKit molecule built here from the constitution graph."""
+    from rdkit import Chem
+    bt = {1: Chem.BondType.SINGLE, 2: Chem.BondType.DOUBLE, 3: Chem.BondType.TRIPLE, 4: Chem.BondType.AROMATIC,
+          8: Chem.BondType.ZERO}
+    rw = Chem.RWMol()
+    idx = {}
+    for n, (z, ch, iso, rad, h) in atoms.items():
+        a = Chem.Atom(z)
+        a.SetFormalCharge(ch)
+        if iso:
+            a.SetIsotope(iso)
+        a.SetNoImplicit(True)
+        a.SetNumExplicitHs(h)
+        a.SetNumRadicalElectrons(rad)
+        idx[n] = rw.AddAtom(a)
+    for n, ms in adj.items():
+        for m, o in ms.items():
+            if n < m:
+                rw.AddBond(idx[n], idx[m], bt[o])
+                if o == 4:
+                    rw.GetAtomWithIdx(idx[n]).SetIsAromatic(True)
+                    rw.GetAtomWithIdx(idx[m]).SetIsAromatic(True)
+    m = rw.GetMol()
+    m.UpdatePropertyCache(strict=False)
+    Chem.FastFindRings(m)
+    ranks = list(Chem.CanonicalRankAtoms(m, breakTies=False, includeChirality=False))
+    return {n: ranks[i] for n, i in idx.items()}
+
+
+def sym_classes(mol):
+    """coarsest common coarsening of the RDKit classes and the WL classes (either oracle saying 'equivalent' counts)."""
+    atoms, adj = const_graph(mol)
+    wl = wl_classes(atoms, adj)
+    try:
+        rd = rdkit_classes(atoms, adj)
+    except Exception:  # noqa  RDKit cannot represent it: WL alone
+        rd = wl
+    parent = {n: n for n in atoms}
+
+    def find(x):
+        while parent[x] != x:
+            parent[x] = parent[parent[x]]
+            x = parent[x]
+        return x
+    for part in (wl, rd):
+        first = {}
+        for n, c in part.items():
+            if c in first:
+                parent[find(n)] = find(first[c])
+            else:
+                first[c] = n
+    return {n: find(n) for n in atoms}, atoms, adj
+
+
+def ring_systems(adj):
+    """connected components of the subgraph of ring bonds (non-bridges): list of (atom set, number of independent rings)."""
+    # bridges by DFS low-link (iterative)
+    disc, low, bridges, t = {}, {}, set(), [0]
+    for root in adj:
+        if root in disc:
+            continue
+        stack = [(root, None, iter(adj[root]))]
+        disc[root] = low[root] = t[0]
+        t[0] += 1
+        while stack:
+            v, par, it = stack[-1]
+            for w in it:
+                if w == par:
+                    continue
+                if w in disc:
+                    low[v] = min(low[v], disc[w])
+                else:
+                    disc[w] = low[w] = t[0]
+                    t[0] += 1
+                    stack.append((w, v, iter(adj[w])))
+                    break
+            else:
+                stack.pop()
+                if par is not None:
+                    low[par] = min(low[par], low[v])
+                    if low[v] > disc[par]:
+                        bridges.add(frozenset((par, v)))
+    radj = {n: [m for m in ms if frozenset((n, m)) not in bridges] for n, ms in adj.items()}
+    seen, out = set(), []
+    for n in radj:
+        if n in seen or not radj[n]:
+            continue
+        comp, st = {n}, [n]
+        while st:
+            x = st.pop()
+            for y in radj[x]:
+                if y not in comp:
+                    comp.add(y)
+                    st.append(y)
+        seen |= comp
+        e = sum(len(radj[x]) for x in comp) // 2
+        out.append((comp, e - len(comp) + 1))
+    return out
+
+
+def stereo_elements(mol):
+    """labelled stereo elements as lists of substituent groups: each group is the list of substituent atoms of one end
+    (tetrahedron: one group with all neighbours; double bond / allene: one group per terminal atom, partner excluded)."""
+    out = []
+    ctc = None
+    for n, a in mol._atoms.items():
+        if a._stereo is None:
+            continue
+        nb = list(mol._bonds[n])
+        if len(nb) >= 3 and all(b.order in (1, 4) or b.order == 8 for b in mol._bonds[n].values()):
+            out.append(('tetrahedron', n, [(nb, a._implicit_hydrogens or 0)]))
+        else:  # allene centre: walk to both terminals
+            groups = []
+            for first in nb:
+                prev, cur = n, first
+                while True:
+                    nxt = [m for m, b in mol._bonds[cur].items() if m != prev and b.order == 2]
+                    if len(nxt) == 1 and len(mol._bonds[cur]) == 2:
+                        prev, cur = cur, nxt[0]
+                    else:
+                        break
+                groups.append(([m for m in mol._bonds[cur] if m != prev], mol._atoms[cur]._implicit_hydrogens or 0))
+            out.append(('allene', n, groups))
+    done = set()
+    for n, ms in mol._bonds.items():
+        for m, b in ms.items():
+            if b._stereo is None or (m, n) in done:
+                continue
+            done.add((n, m))
+            groups = []
+            for start, other in ((n, m), (m, n)):  # walk outwards along a cumulene chain to its terminal
+                prev, cur = other, start
+                while True:
+                    nxt = [k for k, bb in mol._bonds[cur].items() if k != prev and bb.order == 2]
+                    if len(nxt) == 1 and len(mol._bonds[cur]) == 2:
+                        prev, cur = cur, nxt[0]
+                    else:
+                        break
+                groups.append(([k for k in mol._bonds[cur] if k != prev], mol._atoms[cur]._implicit_hydrogens or 0))
+            out.append(('cis-trans', (n, m), groups))
+    return out
+
+
+def gap_stereo(mol, cls):
+    """recorded gap (i): a labelled stereo element with two constitutionally equivalent substituents."""
+    for kind, where, groups in stereo_elements(mol):
+        for subs, nh in groups:
+            cs = [cls[x] for x in subs]
+            if len(set(cs)) < len(cs) or nh >= 2 or (nh == 1 and any(mol._atoms[x].atomic_number == 1 for x in subs)):
+                return f'{kind}@{where}'
+    return None
+
+
+def gap_cage(mol, cls, adj, min_rings=3):
+    """recorded gap (ii): a ring system with >= 3 rings containing symmetry-equivalent ring atoms."""
+    for comp, k in ring_systems(adj):
+        if k >= min_rings:
+            cs = [cls[x] for x in comp]
+            if len(set(cs)) < len(cs):
+                return f'{k}-ring system of {len(comp)} atoms'
+    return None
+
+
+def exists_automorphism(atoms, adj, col, fixed, budget=20000):
+    """is there an automorphism of the constitution graph extending the partial map `fixed`? (backtracking, colour-pruned)"""
+    order = list(fixed)
+    seen = set(order)
+    # extend in BFS order so that every new vertex has a mapped neighbour when possible
+    queue = list(order)
+    rest = [n for n in atoms if n not in seen]
+    while queue or rest:
+        if not queue:
+            queue.append(rest[0])
+            if rest[0] not in seen:
+                seen.add(rest[0])
+                order.append(rest[0])
+        x = queue.pop(0)
+        for y in adj[x]:
+            if y not in seen:
+                seen.add(y)
+                order.append(y)
+                queue.append(y)
+        rest = [n for n in rest if n not in seen]
+    steps = [0]
+
+    def ok(v, w, mp):
+        if col[v] != col[w] or atoms[v] != atoms[w] or len(adj[v]) != len(adj[w]):
+            return False
+        for u, o in adj[v].items():
+            if u in mp and adj[w].get(mp[u]) != o:
+                return False
+        return True
+
+    for v, w in fixed.items():
+        part = {k: fixed[k] for k in fixed if k != v}
+        if not ok(v, w, part):
+            return False
+    if len(set(fixed.values())) != len(fixed):
+        return False
+
+    def rec(i, mp, used):
+        steps[0] += 1
+        if steps[0] > budget:
+            raise TimeoutError
+        if i == len(order):
+            return True
+        v = order[i]
+        if v in mp:
+            return rec(i + 1, mp, used)
+        cands = None
+        for u in adj[v]:
+            if u in mp:
+                c = set(adj[mp[u]])
+                cands = c if cands is None else cands & c
+        if cands is None:
+            cands = set(atoms)
+        for w in sorted(cands):
+            if w in used or not ok(v, w, mp):
+                continue
+            mp[v] = w
+            used.add(w)
+            if rec(i + 1, mp, used):
+                return True
+            del mp[v]
+            used.discard(w)
+        return False
+    return rec(0, dict(fixed), set(fixed.values()))
+
+
+def bfs_dist(adj, v):
+    d, q = {v: 0}, [v]
+    while q:
+        x = q.pop(0)
+        for y in adj[x]:
+            if y not in d:
+                d[y] = d[x] + 1
+                q.append(y)
+    return d
+
+
+def rigid_tie(atoms, adj, col):
+    """Is there a choice point where two same-class atoms tie and no symmetry of the molecule that keeps the earlier
+    choice in place exchanges them?  (v = an atom already chosen, u = the atom whose neighbours x, y are compared;
+    x, y in one class and equally far from v.)  Returns a witness or None; 'budget' when the search was cut."""
+    try:
+        for v in atoms:
+            d = bfs_dist(adj, v)
+            for u in atoms:
+                if u not in d:
+                    continue
+                nb = [x for x in adj[u] if x != v]
+                for x, y in itertools.combinations(nb, 2):
+                    if col[x] == col[y] and d.get(x) == d.get(y):
+                        fixed = {v: v, x: y, y: x} if u == v else {v: v, u: u, x: y, y: x}
+                        if not exists_automorphism(atoms, adj, col, fixed):
+                            return (v, u, x, y)
+        # start atom / component choice: two same-class atoms that no automorphism exchanges
+        reps = {}
+        for n in atoms:
+            reps.setdefault(col[n], []).append(n)
+        for c, ns in reps.items():
+            for y in ns[1:]:
+                if not exists_automorphism(atoms, adj, col, {ns[0]: y}):
+                    return (None, None, ns[0], y)
+    except TimeoutError:
+        return 'budget'
+    return None
+
+
+# ------------------------------------------------------------------------------------------------
+# descriptions of one structure
+# ------------------------------------------------------------------------------------------------
+
+def _odd(a, b):
+    p = [a.index(x) for x in b]
+    return sum(1 for i in range(len(p)) for j in range(i + 1, len(p)) if p[i] > p[j]) % 2 == 1
+
+
+def reorder(rng, mol):
+    """Same structure: new atom numbers, random insertion order of atoms, of adjacency rows and of neighbour dicts.
+    Stereo labels are stored relative to the neighbour *insertion order*, so they are re-expressed for the new order
+    (tetrahedra: permutation parity computed here; double bonds / allenes: the library's sign translation)."""
+    c, mapping = molgen.renumber(rng, mol)
+    inv = {v: k for k, v in mapping.items()}
+    st, sa, sc = mol.stereogenic_tetrahedrons, mol.stereogenic_allenes, mol.stereogenic_cis_trans
+    new_a, new_b = {}, {}
+    for n, a in mol._atoms.items():
+        if a._stereo is None:
+            continue
+        n2 = mapping[n]
+        if n in st:
+            new_env = tuple(inv[x] for x in c.stereogenic_tetrahedrons[n2])
+            new_a[n2] = a._stereo ^ _odd(st[n], new_env)
+        elif n in sa:
+            e = c.stereogenic_allenes[n2]
+            new_a[n2] = mol._translate_allene_sign(n, inv[e[0]], inv[e[1]])
+        else:
+            raise ValueError('stereo label on an atom that is not stereogenic')
+    ctc = mol._stereo_cis_trans_centers
+    for (n, m) in sc:
+        i, j = ctc[n]
+        if mol._bonds[i][j]._stereo is None:
+            continue
+        n2, m2 = mapping[n], mapping[m]
+        if (n2, m2) in c.stereogenic_cis_trans:
+            e = c.stereogenic_cis_trans[(n2, m2)]
+            s = mol._translate_cis_trans_sign(n, m, inv[e[0]], inv[e[1]])
+        else:
+            e = c.stereogenic_cis_trans[(m2, n2)]
+            s = mol._translate_cis_trans_sign(m, n, inv[e[0]], inv[e[1]])
+        new_b[(mapping[i], mapping[j])] = s
+    for n2, s in new_a.items():
+        c._atoms[n2]._stereo = s
+    for (i, j), s in new_b.items():
+        c._bonds[i][j]._stereo = s
+    c.flush_cache()
+    return c, mapping
+
+
+def normalise(mol):
+    """'once aromaticity is normalised': Kekulé form, then the library's aromatisation."""
+    m = mol.copy()
+    m.kekule()
+    m.thiele()
+    return m
+
+
+def reread_own(rng, mol):
+    """the library's own random-order writer, read back"""
+    import chython.algorithms.smiles as sm
+    from chython import smiles
+    old = sm.random
+    sm.random = rng.random
+    try:
+        text = format(mol, 'r')
+    finally:
+        sm.random = old
+    return text, normalise(smiles(text))
+
+
+def reread_rdkit(rng, text, kekule):
+    """another toolkit's random spelling of the same input text, read back"""
+    from rdkit import Chem
+    from chython import smiles
+    rm = Chem.MolFromSmiles(text)
+    if rm is None:
+        return None, None
+    if kekule:
+        Chem.Kekulize(rm, clearAromaticFlags=True)
+    n = rm.GetNumAtoms()
+    t = Chem.MolToSmiles(rm, rootedAtAtom=rng.randrange(n), canonical=False, kekuleSmiles=kekule) if rng.random() < 0.5 \
+        else Chem.MolToRandomSmilesVect(rm, 1, randomSeed=rng.randrange(1, 2 ** 31), kekuleSmiles=kekule)[0]
+    return t, normalise(smiles(t))
+
+
+# ------------------------------------------------------------------------------------------------
 # R: relational validation of the canonical string (real code on both sides)
 # ------------------------------------------------------------------------------------------------
 
-def relational(ctx):
-    pass
+SYMMETRIC = [
+    'Cc1ccc(C)cc1', 'CC(C)C', 'CC(C)(C)C', 'Cc1cc(C)cc(C)c1', 'c1ccc2ccccc2c1', 'C1CCC2CCCCC2C1', 'C1CCC2(CC1)CCCCC2',
+    'CC1CCC(C)CC1', 'OC(=O)CCC(=O)O', 'CCN(CC)CC', 'CC(C)c1ccc(cc1)C(C)C', 'O=C1CCC(=O)CC1', 'CC(C)(C)c1ccccc1',
+    'FC(F)(F)c1cc(cc(c1)C(F)(F)F)C(F)(F)F', 'OCC(CO)(CO)CO', 'C1COCCO1', 'c1cc2ccc3cccc4ccc(c1)c2c34', 'CC(C)CC(C)C',
+    'N(C)(C)c1ccc(cc1)N(C)C', 'C1CC1C1CC1', 'C(c1ccccc1)(c1ccccc1)c1ccccc1', 'CCOC(=O)CC(=O)OCC', 'C1CCC(CC1)C1CCCCC1',
+    'O=S(=O)(c1ccccc1)c1ccccc1', 'CC(=O)OC(C)=O', 'C[N+](C)(C)C.[Cl-]', 'CCCC.CCCC', '[Na+].[Na+].[O-]C(=O)C([O-])=O',
+    'C=CC=C', 'C1=CCC=CC1', 'C#CC#C', 'CC=C(C)C', 'C/C=C/C=C/C', 'C[C@H](O)[C@@H](C)O', 'C[C@H](O)[C@H](C)O',
+    'O[C@H](C(=O)O)[C@@H](O)C(=O)O', 'F/C=C/F', 'F/C=C\\F', 'C[C@@H]1CCC[C@H](C)C1=O',
+]
 
+KF_COMPONENT = 'C01/canonical-string-depends-on-numbering/order-of-components-the-refinement-cannot-tell-apart'
+KF_TIE = 'C01/canonical-string-depends-on-numbering/tie-between-same-class-atoms-not-exchangeable-by-symmetry'
+
+
+def describe(mol):
+    return str(mol), hash(mol)
+
+
+def census(mol):
+    """what a second spelling must at least preserve to be a spelling of the same structure"""
+    return (sorted((a.atomic_number, a._charge, a._isotope or 0, a._implicit_hydrogens or 0) for a in mol._atoms.values()),
+            sum(1 for a in mol._atoms.values() if a._stereo is not None),
+            sum(1 for _, _, b in mol.bonds() if b._stereo is not None))
+
+
+def in_domain(mol):
+    """None when inside the claimed domain, else the name of the recorded gap."""
+    cls, atoms, adj = sym_classes(mol)
+    g = gap_stereo(mol, cls)
+    if g:
+        return 'gap-i:' + g
+    g = gap_cage(mol, cls, adj)
+    if g:
+        return 'gap-ii:' + g
+    return None
+
+
+def classify_failure(mol, s0, s1):
+    """signature of a numbering/spelling dependence observed on an in-domain molecule (independent oracle only)."""
+    if '.' in s0 and sorted(s0.split(' ')[0].split('.')) == sorted(s1.split(' ')[0].split('.')):
+        return KF_COMPONENT
+    cls, atoms, adj = sym_classes(mol)
+    w = rigid_tie(atoms, adj, cls)
+    if w is not None:
+        return KF_TIE
+    has_stereo = bool(stereo_elements(mol))
+    return 'C01/canonical-string-differs/' + ('stereo' if has_stereo else 'no-stereo') + \
+        ('/all-atoms-distinct' if len(set(cls.values())) == len(cls) else '/symmetric-but-exchangeable')
+
+
+def compare(ctx, name, base, s0, h0, kind, other, detail):
+    """one relational case: `other` is a second description of the structure `base`."""
+    from .. import wire
+    try:
+        s1, h1 = describe(other)
+        eq = (base == other) and (other == base)
+    except Exception as e:  # noqa
+        s1, h1, eq = f'<{type(e).__name__}: {e}>', None, False
+    ctx.count(('R', kind, s0, detail), True)
+    ctx.dist('R:' + kind)
+    ctx.sample({'relational': kind, 'first': s0[:100], 'second description': str(detail)[:100], 'canonical string of second': s1[:100]},
+               limit=9)
+    if s1 == s0 and eq and h1 == h0:
+        return True
+    if s1 == s0:
+        sig = 'C01/eq-or-hash-disagrees-with-equal-strings'
+    else:
+        sig = classify_failure(base, s0, s1)
+    ctx.cov['disagreements_checked'] += 1
+    ctx.fail(sig, f'{kind}: {name}: {s0!r} vs {s1!r}; ==: {eq}; hash equal: {h0 == h1}',
+             {'kind': 'two-descriptions', 'how': kind, 'name': name, 'a': wire.mol_to_ints(base), 'b': wire.mol_to_ints(other),
+              'str_a': s0, 'str_b': s1, 'detail': str(detail)[:300]})
+    return False
+
+
+def relational_molecules(ctx):
+    from chython import smiles
+    rng = ctx.rng
+    out = []
+    for s in molgen.HANDMADE + SYMMETRIC:
+        m = molgen.parse(s)
+        if m is not None:
+            out.append((s, s, m))
+    smis = molgen.corpus_smiles()
+    for i in rng.sample(range(len(smis)), 220 if ctx.quick else 2500):
+        m = molgen.parse(smis[i])
+        if m is not None:
+            out.append((f'corpus[{i}]', smis[i], m))
+    n_small = 5 if ctx.quick else 6
+    for k in range(2, n_small + 1):
+        for g in molgen.unlabeled_small_graphs(k):
+            try:
+                out.append((f'small{g}', None, molgen.decorate(rng, list(g))))
+            except Exception:  # noqa
+                continue
+    for i in range(60 if ctx.quick else 600):
+        e = molgen.ring_assembly(rng, max_rings=3)
+        try:
+            out.append((f'rings#{i}', None, molgen.decorate(rng, e, hetero=0.2, multiple=0.1, charge=0.03)))
+        except Exception:  # noqa
+            continue
+    return out
+
+
+def relational(ctx, mols=None, nvar=None):
+    rng = ctx.rng
+    nren = nvar or (2 if ctx.quick else 4)
+    for name, text, raw in (mols if mols is not None else relational_molecules(ctx)):
+        try:
+            base = normalise(raw)
+        except Exception as e:  # noqa  (not kekulisable: outside "once aromaticity is normalised")
+            ctx.dist('R:skipped:normalise:' + type(e).__name__)
+            continue
+        try:
+            gap = in_domain(base)
+        except Exception as e:  # noqa
+            ctx.notes.append(f'symmetry oracle failed on {name}: {type(e).__name__}: {e}')
+            continue
+        if gap:
+            ctx.dist('R:filtered:' + gap.split(':')[0])
+            continue
+        s0, h0 = describe(base)
+        for r in range(nren):
+            try:
+                c, mapping = reorder(rng, base)
+            except Exception as e:  # noqa
+                ctx.dist('R:skipped:reorder:' + type(e).__name__)
+                continue
+            compare(ctx, name, base, s0, h0, 'renumber+reinsert', c, sorted(mapping.items())[:12])
+        try:
+            t, m2 = reread_own(rng, base)
+            compare(ctx, name, base, s0, h0, 'reread-own-random-spelling', m2, t)
+        except Exception as e:  # noqa
+            ctx.dist('R:skipped:reread-own:' + type(e).__name__)
+        if text is not None and ' ' not in text and '>' not in text:
+            for kek in ((False, True) if not ctx.quick else (rng.random() < 0.5,)):
+                try:
+                    t, m2 = reread_rdkit(rng, text, kek)
+                except Exception as e:  # noqa
+                    ctx.dist('R:skipped:reread-rdkit:' + type(e).__name__)
+                    continue
+                if m2 is None:
+                    continue
+                if census(m2) != census(base):
+                    # the other toolkit changed the description itself (explicit H removed, allene / unsupported stereo
+                    # dropped): not a spelling of the same structure
+                    ctx.dist('R:skipped:rdkit-spelling-changes-atoms-or-stereo-count')
+                    continue
+                compare(ctx, name, base, s0, h0, 'reread-rdkit-' + ('kekule' if kek else 'aromatic'), m2, t)
+    ctx.cov['programs'] = ctx.cov.get('programs', 0) + 3  # Smiles.__str__, __eq__, __hash__
+
+
+# ------------------------------------------------------------------------------------------------
+# search: property-level oracle on the real code, around whatever broke
+# ------------------------------------------------------------------------------------------------
 
 def search(ctx):
-    pass
+    """Runs when a theorem / translator / K stream broke and no failing input is in hand: many more descriptions per
+    molecule, starting with the molecules of the disagreeing K cases, then the symmetric catalogue, then the corpus."""
+    from .. import wire
+    import time
+    t_end = time.time() + (60 if ctx.quick else 600)
+    first = []
+    for op, items in (_state.get('k_bad') or {}).items():
+        if op != 'order':
+            continue
+        for what, line, exp, g in sorted(items, key=lambda t: len(t[1]))[:40]:
+            xs = list(map(int, line.split()[1:]))
+            try:
+                first.append((what, None, view_to_mol(xs)))
+            except Exception:  # noqa
+                continue
+    pools = [first, [(s, s, molgen.parse(s)) for s in SYMMETRIC + molgen.HANDMADE if molgen.parse(s) is not None]]
+    before = len(ctx.failures)
+    for pool in pools:
+        relational(ctx, pool, nvar=12)
+        if any(f.signature not in (KF_COMPONENT, KF_TIE) for f in ctx.failures[before:]) or time.time() > t_end:
+            return
+    smis = molgen.corpus_smiles()
+    idx = list(range(len(smis)))
+    ctx.rng.shuffle(idx)
+    for i in idx:
+        if time.time() > t_end:
+            break
+        m = molgen.parse(smis[i])
+        if m is None:
+            continue
+        relational(ctx, [(f'corpus[{i}]', smis[i], m)], nvar=6)
+        if any(f.signature not in (KF_COMPONENT, KF_TIE) for f in ctx.failures[before:]):
+            return
+
+
+def view_to_mol(xs):
+    """molecule from the `order` wire (no stereo)."""
+    from chython import MoleculeContainer
+    from chython.periodictable import Element
+    it = iter(xs)
+    n_atoms = next(it)
+    m = MoleculeContainer()
+    edges = []
+    for _ in range(n_atoms):
+        n, z, iso, ch, rad, h, ring, deg = (next(it) for _ in range(8))
+        m.add_atom(Element.from_atomic_number(z)(iso or None, charge=ch, is_radical=bool(rad),
+                                                 implicit_hydrogens=None if h < 0 else h), n, _skip_calculation=True)
+        for _ in range(deg):
+            k, o = next(it), next(it)
+            if n < k:
+                edges.append((n, k, o))
+    for n, k, o in edges:
+        m.add_bond(n, k, o, _skip_calculation=True)
+    m.calc_labels()
+    return m
+
+
+# ------------------------------------------------------------------------------------------------
+# probe: re-execute one input on the real code
+# ------------------------------------------------------------------------------------------------
+
+def isomorphic(ma, mb):
+    """constitution isomorphism of two molecules by own backtracking (disjoint union + automorphism exchanging them)."""
+    aa, adja = const_graph(ma)
+    ab, adjb = const_graph(mb)
+    if sorted(aa.values()) != sorted(ab.values()) or len(aa) != len(ab):
+        return False
+    off = max(aa) + 1
+    atoms = dict(aa)
+    atoms.update({n + off: v for n, v in ab.items()})
+    adj = {n: dict(ms) for n, ms in adja.items()}
+    adj.update({n + off: {m + off: o for m, o in ms.items()} for n, ms in adjb.items()})
+    col = wl_classes(atoms, adj)
+    # search a bijection A -> B: automorphism of the union that maps every A vertex into B
+    order = list(aa)
+
+    def rec(i, mp, used):
+        if i == len(order):
+            return True
+        v = order[i]
+        for w in ab:
+            w2 = w + off
+            if w2 in used or col[v] != col[w2]:
+                continue
+            if any(u in mp and adj[w2].get(mp[u]) != o for u, o in adj[v].items()):
+                continue
+            if any(u in mp and mp[u] not in adj[w2] for u in adj[v]):
+                continue
+            mp[v] = w2
+            used.add(w2)
+            if rec(i + 1, mp, used):
+                return True
+            del mp[v]
+            used.discard(w2)
+        return False
+    return rec(0, {}, set())
 
 
 def probe(inp):
-    return False, 'not implemented'
+    from .. import wire
+    from ..gen import pyx2py
+    pyx2py.install()
+    if inp.get('kind') == 'two-spellings':
+        from chython import smiles
+        a, b = normalise(smiles(inp['a'])), normalise(smiles(inp['b']))
+    else:
+        a, _ = wire.ints_to_mol(inp['a'], calc=True)
+        b, _ = wire.ints_to_mol(inp['b'], calc=True)
+    same = isomorphic(a, b)
+    sa, sb = str(a), str(b)
+    eq = (a == b)
+    he = hash(a) == hash(b)
+    fails = same and (sa != sb or not eq or not he)
+    return fails, (f'two descriptions of one structure (constitution isomorphism verified independently: {same}); '
+                   f'str: {sa!r} vs {sb!r}; ==: {eq}; hash equal: {he}')
